@@ -176,10 +176,10 @@ type opIn struct {
 	metric  uint16 // metric the stored route must carry
 	seq     uint64
 	tag     uint32
-	self    bool  // the advertised path contains the local agent
-	peer    int8  // disconnect
-	maxAge  int64 // cleanup
-	t       int64 // simulated time of the invocation (no time passes inside an operation)
+	self    bool   // the advertised path contains the local agent
+	peer    int8   // disconnect
+	maxAge  int64  // cleanup
+	t       int64  // simulated time of the invocation (no time passes inside an operation)
 	q       string // lookup query in model form: raw address bytes / lower-case name / key / agent key
 
 	// how the real call is made (not used by the model)
